@@ -1,5 +1,5 @@
 /*UNIT
-{"props": ["C03","C09","C06"], "kind": "K2", "tier": "quick", "timeout": 600,
+{"props": ["C03","C09","C06","C10"], "kind": "K2", "tier": "quick", "timeout": 600,
  "extra_src": ["stubs/mem_sampled.c"],
  "functions": ["ZSTD_getFrameHeader_advanced","ZSTD_frameHeaderSize_internal","ZSTD_getFrameContentSize","ZSTD_isFrame","ZSTD_isSkippableFrame","ZSTD_getDictID_fromFrame","readSkippableFrameSize","ZSTD_readSkippableFrame","ZSTD_writeSkippableFrame"],
  "floor": 100,
